@@ -195,6 +195,29 @@ fn dags(tier: Tier, deep: bool) -> Vec<Dag> {
             }
         }
     }
+    // scenarios with references that the single-target forms above cannot express: elements that are themselves
+    // generated (reuse with an id), groups holding a forward reference, forward clip paths, references into and
+    // out of a nested container, references to <specs> content
+    let sc = |name: &str, nodes: &[&str], unsat: Option<&'static str>| Dag { nodes: nodes.iter().enumerate().map(|(i, n)| Node { src: n.to_string(), label: if i == 0 { name.to_string() } else { format!("n{i}") } }).collect(), unsat };
+    v.push(sc("reuse-of-deferred-group-placed-by-size", &[r##"<g id="a"><rect xy="#b|h" wh="10"/></g>"##, r##"<rect id="b" wh="5"/>"##, r##"<reuse id="c" href="#a" cxy="50 50"/>"##], None));
+    v.push(sc("reuse-of-deferred-group-placed-by-size", &[r##"<g id="a"><rect xy="#b|h" wh="10"/></g>"##, r##"<rect id="b" wh="5"/>"##, r##"<reuse id="c" href="#a" x2="50" y2="50"/>"##], None));
+    v.push(sc("reference-to-deferred-group", &[r##"<g id="a"><rect xy="#b|h" wh="10"/></g>"##, r##"<rect id="b" wh="5"/>"##, r##"<rect id="c" xy="#a|v 2" wh="3"/>"##], None));
+    v.push(sc("reference-to-deferred-reuse", &[r##"<rect id="a" wh="10"/>"##, r##"<reuse id="b" href="#a" xy="#d|h 5"/>"##, r##"<rect id="c" xy="#b|v" wh="4"/>"##, r##"<rect id="d" xy="100 100" wh="3"/>"##], None));
+    v.push(sc("reference-to-deferred-reuse-abs", &[r##"<rect id="a" xy="#d|h" wh="10"/>"##, r##"<rect id="c" xy="#b|v" wh="4"/>"##, r##"<reuse id="b" href="#a" x="50" y="50"/>"##, r##"<rect id="d" wh="3"/>"##], None));
+    v.push(sc("cycle-through-reuse", &[r##"<rect id="a" wh="10"/>"##, r##"<reuse id="b" href="#a" xy="#c|h 5"/>"##, r##"<rect id="c" xy="#b|v 5" wh="4"/>"##], Some("cycle-through-reuse")));
+    v.push(sc("self-reference-of-reuse", &[r##"<rect id="a" wh="10"/>"##, r##"<reuse id="b" href="#a" xy="#b|h 5"/>"##], Some("self-reference-of-reuse")));
+    v.push(sc("inside-forward-clipped", &[r##"<rect id="a" xy="0" wh="20" clip-path="url(#c)"/>"##, r##"<rect id="b" inside="#a"/>"##, r##"<clipPath id="c"><rect xy="0" wh="10"/></clipPath>"##], None));
+    v.push(sc("beside-forward-clipped", &[r##"<rect id="a" xy="0" wh="20" clip-path="url(#c)"/>"##, r##"<rect id="b" xy="#a|h 1" wh="2"/>"##, r##"<clipPath id="c"><rect xy="0" wh="10"/></clipPath>"##], None));
+    v.push(sc("reuse-of-forward-clipped-group", &[r##"<g id="a" clip-path="url(#b)"><rect wh="20"/></g>"##, r##"<clipPath id="b"><rect wh="10"/></clipPath>"##, r##"<reuse id="c" href="#a" x2="50" y2="50"/>"##], None));
+    v.push(sc("cycle-through-clip-path", &[r##"<rect id="a" xy="0" wh="20" clip-path="url(#b)"/>"##, r##"<clipPath id="b"><rect inside="#a"/></clipPath>"##], Some("cycle-through-clip-path")));
+    for (open, close) in [("<g>", "</g>"), ("<if test=\"1\">", "</if>"), ("<loop count=\"1\">", "</loop>"), ("<a href=\"x\">", "</a>"), ("<g id=\"k\" transform=\"translate(1)\">", "</g>")] {
+        let inner = format!("{open}<rect id=\"i\" xy=\"#c|h\" wh=\"5\"/><rect id=\"j\" xy=\"#a|v\" wh=\"5\"/>{close}");
+        v.push(sc("nested-progress-3", &[r##"<rect id="a" xy="#i|h" wh="5"/>"##, &inner, r##"<rect id="c" wh="5"/>"##], None));
+        let inner2 = format!("{open}<rect id=\"i\" wh=\"5\"/><rect id=\"j\" xy=\"#a|v\" wh=\"5\"/>{close}");
+        v.push(sc("nested-progress-2", &[r##"<rect id="a" xy="#i|h" wh="5"/>"##, &inner2], None));
+    }
+    v.push(sc("reference-to-specs-content", &[r##"<specs><rect id="t" xy="#c|h" wh="5"/></specs>"##, r##"<rect id="c" wh="3"/>"##, r##"<rect id="b" xy="#t|v" wh="2"/>"##], None));
+    v.push(sc("reuse-of-specs-content", &[r##"<specs><rect id="t" xy="#c|h" wh="5"/></specs>"##, r##"<rect id="c" wh="3"/>"##, r##"<reuse id="b" href="#t"/>"##], None));
     // unsatisfiable variants (n = 3): unknown id, cycle, target without bounding box
     for (f1n, f1) in FORMS1 {
         for (f2n, f2) in FORMS1 {
